@@ -331,7 +331,7 @@ fn long_histories(ctx: &mut Ctx, n: usize, n_huge: usize) {
     let mut rng: Rng = ctx.rng.clone();
     for k in 0..n + n_huge {
         let huge = k < n_huge;
-        let distinct = if huge { 4_500 + rng.below(8_000) } else if rng.chance(1, 5) { 300 + rng.below(1200) } else { 20 + rng.below(200) };
+        let distinct = if huge { if k % 2 == 0 { 17_000 + rng.below(50_000) } else { 4_500 + rng.below(8_000) } } else if rng.chance(1, 5) { 300 + rng.below(1200) } else { 20 + rng.below(200) };
         let mut calls: Vec<Call> = vec![];
         // the argument table for this history: integers 1000.. are appended to the shared pool on the fly through `arg` indices
         // (indices beyond the pool are mapped to Int(index) in call_expr_long)
@@ -358,7 +358,7 @@ fn run(ctx: &mut Ctx) {
         let calls: Vec<Call> = [("ca", 999_990), ("ca", 999_990), ("cb", 999_990), ("ca", 999_991), ("ca", 999_990), ("na", 999_991), ("ca", 999_991)].into_iter().map(|(f, arg)| Call { func: f, arg, inner: None }).collect();
         judge(ctx, &calls, &[3], FaultPlan::default(), "megabyte-arguments");
     }
-    long_histories(ctx, ctx.tier.of(30, 300), ctx.tier.of(1, 4));
+    long_histories(ctx, ctx.tier.of(30, 300), ctx.tier.of(2, 6));
     exhaustive(ctx, ctx.tier.of(3, 4));
     random(ctx, ctx.tier.of(60_000, 600_000));
 }
@@ -375,7 +375,7 @@ fn finish(m: &Merged, tier: Tier) -> Finish {
     f.floors.push(floor(format!("histories with failing invocations: {}", m.c("histories-with-failures")), m.c("histories-with-failures") >= 5_000));
     f.floors.push(floor(format!("fifth consecutive evaluations checked: {}", m.c("evaluation-round:5")), m.c("evaluation-round:5") >= tier.of(20_000, 200_000)));
     f.floors.push(floor(format!("evaluations after a function's declared cacheability changed: {}", m.c("evaluations-after-the-declared-cacheability-changed")), m.c("evaluations-after-the-declared-cacheability-changed") >= tier.of(20_000, 200_000)));
-    f.floors.push(floor(format!("histories with more than 4500 distinct arguments: {}", m.c("family:histories-with-thousands-of-distinct-arguments")), m.c("family:histories-with-thousands-of-distinct-arguments") >= 16));
+    f.floors.push(floor(format!("histories with more than 4500 distinct arguments: {}", m.c("family:histories-with-thousands-of-distinct-arguments")), m.c("family:histories-with-thousands-of-distinct-arguments") >= 32));
     f.floors.push(floor(format!("histories evaluated 60 times in a row: {}", m.c("histories-evaluated-60-times")), m.c("histories-evaluated-60-times") >= 100));
     f.floors.push(floor(format!("histories in which a function stops being cacheable midway: {}", m.c("histories-that-turn-cacheability-off-midway")), m.c("histories-that-turn-cacheability-off-midway") >= tier.of(5_000, 50_000)));
     f.extras.insert("histories_distinct".into(), json!(m.distinct_nontrivial));
